@@ -1,1 +1,868 @@
-//! stub
+//! Reference evaluator (DESIGN §4).  Written from the CEL semantics as this implementation
+//! documents them and as the properties restate them; it shares no code with the interpreter.
+//!
+//! `Err(Stop::Unsupported(..))` means the model deliberately makes no prediction for this
+//! construct ("deliberately not asserted" corners); callers skip such cases.
+
+use super::expr::{Mac, Op, E};
+use super::num::{cmp_int_f64, nearest_f64};
+use super::{ErrClass, V};
+use std::cmp::Ordering;
+
+#[derive(Clone, Debug, PartialEq)]
+pub enum Stop {
+    Err(ErrClass),
+    Unsupported(&'static str),
+}
+
+pub type Res = Result<V, Stop>;
+
+fn other() -> Stop {
+    Stop::Err(ErrClass::Other)
+}
+fn unsup(s: &'static str) -> Stop {
+    Stop::Unsupported(s)
+}
+
+pub const BUILTINS: [&str; 24] = [
+    "contains", "size", "max", "min", "startsWith", "endsWith", "string", "bytes", "double", "int", "uint", "matches", "duration", "timestamp", "getFullYear", "getMonth", "getDayOfYear", "getDayOfMonth",
+    "getDate", "getDayOfWeek", "getHours", "getMinutes", "getSeconds", "getMilliseconds",
+];
+pub const HOST_FUNCS: [&str; 19] = ["t", "fail", "fail1", "h0", "h1", "h2", "h3", "h4", "m0", "m1", "m2", "m3", "va", "q", "q2", "idf", "tf", "noop", "thisopt"];
+
+/// table for the table-driven host predicate/transformer `q(x)`: result per argument, `None` = raise an error
+pub type Table = Vec<(V, Option<V>)>;
+
+pub struct St {
+    /// scope chain, innermost last
+    pub scopes: Vec<Vec<(String, V)>>,
+    pub log: Vec<String>,
+    pub table: Table,
+    /// host functions (t, h*, m*, q, …) are registered
+    pub host: bool,
+    /// built-ins are registered (Context::default())
+    pub builtins: bool,
+    /// number of host-function bodies run
+    pub calls: u64,
+    /// short-circuit or conditional skipped an operand at least once
+    pub skipped_operand: bool,
+    pub macro_iterations: u64,
+}
+
+impl St {
+    pub fn new(vars: &[(String, V)], table: Table) -> St {
+        St { scopes: vec![vars.to_vec()], log: vec![], table, host: true, builtins: true, calls: 0, skipped_operand: false, macro_iterations: 0 }
+    }
+    fn lookup(&self, n: &str) -> Option<&V> {
+        for s in self.scopes.iter().rev() {
+            // later definitions in the same scope win
+            if let Some((_, v)) = s.iter().rev().find(|(k, _)| k == n) {
+                return Some(v);
+            }
+        }
+        None
+    }
+    pub fn has_function(&self, n: &str) -> bool {
+        (self.builtins && BUILTINS.contains(&n)) || (self.host && HOST_FUNCS.contains(&n))
+    }
+}
+
+pub fn truthy_bool(v: &V) -> Result<bool, Stop> {
+    match v {
+        V::Bool(b) => Ok(*b),
+        _ => Err(unsup("truthiness of a non-bool")),
+    }
+}
+
+/// exact numeric comparison across int / uint / double; None = unordered (NaN)
+pub fn num_cmp(a: &V, b: &V) -> Option<Option<Ordering>> {
+    let as_big = |v: &V| match v {
+        V::Int(i) => Some(*i as i128),
+        V::UInt(u) => Some(*u as i128),
+        _ => None,
+    };
+    Some(match (a, b) {
+        (V::Float(x), V::Float(y)) => x.0.partial_cmp(&y.0),
+        (V::Float(x), _) => cmp_int_f64(as_big(b)?, x.0).map(|o| o.reverse()),
+        (_, V::Float(y)) => cmp_int_f64(as_big(a)?, y.0),
+        _ => Some(as_big(a)?.cmp(&as_big(b)?)),
+    })
+}
+
+pub fn is_num(v: &V) -> bool {
+    matches!(v, V::Int(_) | V::UInt(_) | V::Float(_))
+}
+
+/// CEL `==` as specified: numbers by value across types, NaN unequal to everything, containers
+/// element-wise, unrelated kinds unequal.
+pub fn cel_eq(a: &V, b: &V) -> Result<bool, Stop> {
+    if is_num(a) && is_num(b) {
+        return Ok(num_cmp(a, b).unwrap() == Some(Ordering::Equal));
+    }
+    Ok(match (a, b) {
+        (V::Null, V::Null) => true,
+        (V::Bool(x), V::Bool(y)) => x == y,
+        (V::Str(x), V::Str(y)) => x == y,
+        (V::Bytes(x), V::Bytes(y)) => x == y,
+        (V::Dur(..), V::Dur(..)) => a.dur_total_ns() == b.dur_total_ns(),
+        (V::Ts(..), V::Ts(..)) => a.ts_total_ns() == b.ts_total_ns(),
+        (V::List(x), V::List(y)) => {
+            if x.len() != y.len() {
+                false
+            } else {
+                let mut all = true;
+                for (p, q) in x.iter().zip(y) {
+                    if !cel_eq(p, q)? {
+                        all = false;
+                    }
+                }
+                all
+            }
+        }
+        (V::Map(x), V::Map(y)) => {
+            // keys differing only in int/uint type: not asserted
+            for (k, _) in x {
+                if is_num(k) && y.iter().any(|(k2, _)| is_num(k2) && k.kind() != k2.kind() && num_cmp(k, k2).unwrap() == Some(Ordering::Equal)) {
+                    return Err(unsup("map equality with int/uint twin keys"));
+                }
+            }
+            if x.len() != y.len() {
+                false
+            } else {
+                let mut all = true;
+                for (k, v) in x {
+                    match y.iter().find(|(k2, _)| super::same(k, k2)) {
+                        None => all = false,
+                        Some((_, v2)) => {
+                            if !cel_eq(v, v2)? {
+                                all = false;
+                            }
+                        }
+                    }
+                }
+                all
+            }
+        }
+        (V::Func(..), _) | (_, V::Func(..)) => return Err(unsup("function value equality")),
+        _ => false,
+    })
+}
+
+/// ordering where the implementation and the statement define one; Err(Other) for unrelated kinds
+pub fn cel_cmp(a: &V, b: &V) -> Result<Ordering, Stop> {
+    if is_num(a) && is_num(b) {
+        return match num_cmp(a, b).unwrap() {
+            Some(o) => Ok(o),
+            None => Err(unsup("ordering with NaN")),
+        };
+    }
+    match (a, b) {
+        (V::Str(x), V::Str(y)) => Ok(x.as_bytes().cmp(y.as_bytes())),
+        (V::Dur(..), V::Dur(..)) => Ok(a.dur_total_ns().cmp(&b.dur_total_ns())),
+        (V::Ts(..), V::Ts(..)) => Ok(a.ts_total_ns().cmp(&b.ts_total_ns())),
+        (V::Bool(_), V::Bool(_)) | (V::Null, V::Null) | (V::Bytes(_), V::Bytes(_)) | (V::List(_), V::List(_)) => Err(unsup("ordering of bool/null/bytes/list")),
+        _ => Err(other()),
+    }
+}
+
+fn int_arith(op: Op, x: i128, y: i128, lo: i128, hi: i128, signed: bool) -> Result<i128, Stop> {
+    let r = match op {
+        Op::Add => x + y,
+        Op::Sub => x - y,
+        Op::Mul => match x.checked_mul(y) {
+            Some(r) => r,
+            None => return Err(Stop::Err(ErrClass::Overflow)),
+        },
+        Op::Div => {
+            if y == 0 {
+                return Err(Stop::Err(ErrClass::ZeroDivisor));
+            }
+            x / y
+        }
+        Op::Rem => {
+            if y == 0 {
+                return Err(Stop::Err(ErrClass::ZeroDivisor));
+            }
+            if signed && x == i64::MIN as i128 && y == -1 {
+                return Err(Stop::Err(ErrClass::Overflow));
+            }
+            x % y
+        }
+        _ => unreachable!(),
+    };
+    if r < lo || r > hi {
+        Err(Stop::Err(ErrClass::Overflow))
+    } else {
+        Ok(r)
+    }
+}
+
+pub fn arith(op: Op, a: &V, b: &V) -> Res {
+    match (a, b) {
+        (V::Int(x), V::Int(y)) => int_arith(op, *x as i128, *y as i128, i64::MIN as i128, i64::MAX as i128, true).map(|r| V::Int(r as i64)),
+        (V::UInt(x), V::UInt(y)) => int_arith(op, *x as i128, *y as i128, 0, u64::MAX as i128, false).map(|r| V::UInt(r as u64)),
+        (V::Float(x), V::Float(y)) => match op {
+            Op::Add => Ok(V::f(x.0 + y.0)),
+            Op::Sub => Ok(V::f(x.0 - y.0)),
+            Op::Mul => Ok(V::f(x.0 * y.0)),
+            Op::Div => Ok(V::f(x.0 / y.0)),
+            _ => Err(other()),
+        },
+        (V::Str(x), V::Str(y)) if op == Op::Add => Ok(V::Str(format!("{x}{y}"))),
+        (V::List(x), V::List(y)) if op == Op::Add => Ok(V::List(x.iter().chain(y.iter()).cloned().collect())),
+        (V::Bytes(_), V::Bytes(_)) if op == Op::Add => Err(unsup("bytes concatenation")),
+        (V::Dur(..), _) | (V::Ts(..), _) | (_, V::Dur(..)) | (_, V::Ts(..)) => Err(unsup("time arithmetic (C15/C16)")),
+        (V::Func(..), _) | (_, V::Func(..)) => Err(unsup("function value operand")),
+        _ => Err(other()),
+    }
+}
+
+/// key lookup with int/uint identification
+pub fn map_get<'a>(es: &'a [(V, V)], k: &V) -> Option<&'a V> {
+    // exact key first (mirrors that a map may hold both 1 and 1u — not asserted which wins, and the
+    // generators never build such maps)
+    if let Some((_, v)) = es.iter().rev().find(|(k2, _)| super::same(k, k2)) {
+        return Some(v);
+    }
+    if matches!(k, V::Int(_) | V::UInt(_)) {
+        if let Some((_, v)) = es.iter().rev().find(|(k2, _)| matches!(k2, V::Int(_) | V::UInt(_)) && num_cmp(k, k2).unwrap() == Some(Ordering::Equal)) {
+            return Some(v);
+        }
+    }
+    None
+}
+
+pub fn has_twin_keys(es: &[(V, V)]) -> bool {
+    es.iter().any(|(k, _)| matches!(k, V::Int(_) | V::UInt(_)) && es.iter().any(|(k2, _)| k.kind() != k2.kind() && matches!(k2, V::Int(_) | V::UInt(_)) && num_cmp(k, k2).unwrap() == Some(Ordering::Equal)))
+}
+
+fn show_id(v: &V) -> String {
+    match v {
+        V::Int(i) => i.to_string(),
+        V::UInt(u) => format!("{u}u"),
+        V::Str(s) => s.clone(),
+        V::Bool(b) => b.to_string(),
+        V::Null => "null".into(),
+        V::Float(f) => format!("{:?}", f.0),
+        other => format!("{other:?}"),
+    }
+}
+
+pub fn eval(e: &E, st: &mut St) -> Res {
+    match e {
+        E::Lit(v) => Ok(v.clone()),
+        E::Raw(_) => Err(unsup("raw source")),
+        E::Var(n) => st.lookup(n).cloned().ok_or_else(|| Stop::Err(ErrClass::Undeclared(n.clone()))),
+        E::Not(a) => {
+            let v = eval(a, st)?;
+            Ok(V::Bool(!truthy_bool(&v)?))
+        }
+        E::Neg(a) => match eval(a, st)? {
+            V::Int(i) => i.checked_neg().map(V::Int).ok_or(Stop::Err(ErrClass::Overflow)),
+            V::Float(f) => Ok(V::f(-f.0)),
+            V::Func(..) => Err(unsup("function value operand")),
+            _ => Err(other()),
+        },
+        E::Bin(Op::And, l, r) => {
+            let lv = eval(l, st)?;
+            if !truthy_bool(&lv)? {
+                st.skipped_operand = true;
+                return Ok(V::Bool(false));
+            }
+            let rv = eval(r, st)?;
+            Ok(V::Bool(truthy_bool(&rv)?))
+        }
+        E::Bin(Op::Or, l, r) => {
+            let lv = eval(l, st)?;
+            if truthy_bool(&lv)? {
+                st.skipped_operand = true;
+                return Ok(V::Bool(true));
+            }
+            let rv = eval(r, st)?;
+            Ok(V::Bool(truthy_bool(&rv)?))
+        }
+        E::Bin(op, l, r) => {
+            let a = eval(l, st)?;
+            let b = eval(r, st)?;
+            match op {
+                Op::Add | Op::Sub | Op::Mul | Op::Div | Op::Rem => arith(*op, &a, &b),
+                Op::Eq => Ok(V::Bool(cel_eq(&a, &b)?)),
+                Op::Ne => Ok(V::Bool(!cel_eq(&a, &b)?)),
+                Op::Lt => Ok(V::Bool(cel_cmp(&a, &b)? == Ordering::Less)),
+                Op::Le => Ok(V::Bool(cel_cmp(&a, &b)? != Ordering::Greater)),
+                Op::Gt => Ok(V::Bool(cel_cmp(&a, &b)? == Ordering::Greater)),
+                Op::Ge => Ok(V::Bool(cel_cmp(&a, &b)? != Ordering::Less)),
+                Op::In => match (&a, &b) {
+                    (_, V::List(xs)) => {
+                        let mut found = false;
+                        for x in xs {
+                            if cel_eq(x, &a)? {
+                                found = true;
+                            }
+                        }
+                        Ok(V::Bool(found))
+                    }
+                    (k, V::Map(es)) if k.is_key_kind() => {
+                        if has_twin_keys(es) {
+                            return Err(unsup("map with int/uint twin keys"));
+                        }
+                        Ok(V::Bool(map_get(es, k).is_some()))
+                    }
+                    (_, V::Map(_)) => Err(unsup("non-key kind `in` map")),
+                    (V::Str(_), V::Str(_)) => Err(unsup("string `in` string")),
+                    _ => Err(other()),
+                },
+                Op::And | Op::Or => unreachable!(),
+            }
+        }
+        E::Cond(c, t, f) => {
+            let cv = eval(c, st)?;
+            st.skipped_operand = true;
+            if truthy_bool(&cv)? {
+                eval(t, st)
+            } else {
+                eval(f, st)
+            }
+        }
+        E::Index(a, i) => {
+            let av = eval(a, st)?;
+            let iv = eval(i, st)?;
+            match (&av, &iv) {
+                (V::List(xs), V::Int(k)) => Ok(if *k >= 0 && (*k as u64) < xs.len() as u64 { xs[*k as usize].clone() } else { V::Null }),
+                (V::List(_), V::UInt(_)) => Err(unsup("uint list index")),
+                (V::List(_), _) => Err(other()),
+                (V::Map(es), k) if k.is_key_kind() => {
+                    if has_twin_keys(es) {
+                        return Err(unsup("map with int/uint twin keys"));
+                    }
+                    Ok(map_get(es, k).cloned().unwrap_or(V::Null))
+                }
+                (V::Map(_), _) => Err(other()),
+                (V::Str(_), _) => Err(unsup("string indexing")),
+                (V::Func(..), _) | (_, V::Func(..)) => Err(unsup("function value operand")),
+                _ => Err(other()),
+            }
+        }
+        E::Select(a, f) => {
+            let av = eval(a, st)?;
+            if let V::Map(es) = &av {
+                if let Some((_, v)) = es.iter().rev().find(|(k, _)| matches!(k, V::Str(s) if s == f)) {
+                    return Ok(v.clone());
+                }
+            }
+            if st.has_function(f) {
+                return Err(unsup("selecting a field named like a registered function"));
+            }
+            Err(Stop::Err(ErrClass::NoSuchKey))
+        }
+        E::Has(a, f) => {
+            let av = eval(a, st)?;
+            match &av {
+                V::Map(es) => {
+                    // keys of other kinds whose text equals the field name: not asserted
+                    if es.iter().any(|(k, _)| !matches!(k, V::Str(_)) && show_id(k) == *f) {
+                        return Err(unsup("has() with a non-string key of the same text"));
+                    }
+                    Ok(V::Bool(es.iter().any(|(k, _)| matches!(k, V::Str(s) if s == f))))
+                }
+                _ => Ok(V::Bool(false)),
+            }
+        }
+        E::List(xs) => {
+            let mut out = Vec::with_capacity(xs.len());
+            for x in xs {
+                out.push(eval(x, st)?);
+            }
+            Ok(V::List(out))
+        }
+        E::Map(es) => {
+            let mut out: Vec<(V, V)> = vec![];
+            for (k, v) in es {
+                let kv = eval(k, st)?;
+                if !kv.is_key_kind() {
+                    if matches!(kv, V::Func(..)) {
+                        return Err(unsup("function value operand"));
+                    }
+                    return Err(other());
+                }
+                let vv = eval(v, st)?;
+                if let Some(slot) = out.iter_mut().find(|(k2, _)| super::same(k2, &kv)) {
+                    slot.1 = vv; // a later duplicate overwrites
+                } else {
+                    out.push((kv, vv));
+                }
+            }
+            Ok(V::Map(out))
+        }
+        E::Struct(..) => Err(other()),
+        E::Macro(m, range, var, body) => eval_macro(*m, range, var, body, st),
+        E::Call(name, recv, args) => eval_call(name, recv.as_deref(), args, st),
+    }
+}
+
+fn eval_macro(m: Mac, range: &E, var: &str, body: &[E], st: &mut St) -> Res {
+    let rv = eval(range, st)?;
+    let items: Vec<V> = match rv {
+        V::List(xs) => xs,
+        V::Map(es) => es.into_iter().map(|(k, _)| k).collect(),
+        V::Func(..) => return Err(unsup("function value operand")),
+        _ => return Err(other()),
+    };
+    st.scopes.push(vec![]);
+    let r = (|| -> Res {
+        let bind = |st: &mut St, x: &V| {
+            let s = st.scopes.last_mut().unwrap();
+            s.retain(|(k, _)| k != var);
+            s.push((var.to_string(), x.clone()));
+        };
+        match m {
+            Mac::All => {
+                let mut acc = true;
+                for x in &items {
+                    if !acc {
+                        break;
+                    }
+                    st.macro_iterations += 1;
+                    bind(st, x);
+                    let v = eval(&body[0], st)?;
+                    acc = truthy_bool(&v)?;
+                }
+                Ok(V::Bool(acc))
+            }
+            Mac::Exists => {
+                let mut acc = false;
+                for x in &items {
+                    if acc {
+                        break;
+                    }
+                    st.macro_iterations += 1;
+                    bind(st, x);
+                    let v = eval(&body[0], st)?;
+                    acc = truthy_bool(&v)?;
+                }
+                Ok(V::Bool(acc))
+            }
+            Mac::ExistsOne | Mac::ExistsOneCamel => {
+                let mut n = 0i64;
+                for x in &items {
+                    st.macro_iterations += 1;
+                    bind(st, x);
+                    let v = eval(&body[0], st)?;
+                    if truthy_bool(&v)? {
+                        n += 1;
+                    }
+                }
+                Ok(V::Bool(n == 1))
+            }
+            Mac::Map => {
+                let mut out = vec![];
+                for x in &items {
+                    st.macro_iterations += 1;
+                    bind(st, x);
+                    if body.len() == 2 {
+                        let pv = eval(&body[0], st)?;
+                        if !truthy_bool(&pv)? {
+                            continue;
+                        }
+                        out.push(eval(&body[1], st)?);
+                    } else {
+                        out.push(eval(&body[0], st)?);
+                    }
+                }
+                Ok(V::List(out))
+            }
+            Mac::Filter => {
+                let mut out = vec![];
+                for x in &items {
+                    st.macro_iterations += 1;
+                    bind(st, x);
+                    let pv = eval(&body[0], st)?;
+                    if truthy_bool(&pv)? {
+                        out.push(x.clone());
+                    }
+                }
+                Ok(V::List(out))
+            }
+        }
+    })();
+    st.scopes.pop();
+    r
+}
+
+fn utf8_ascii(s: &str) -> bool {
+    s.is_ascii()
+}
+
+/// `this`-style argument delivery: receiver if present, else the first argument
+struct Args<'a> {
+    recv: Option<V>,
+    args: &'a [E],
+    next: usize,
+}
+
+impl<'a> Args<'a> {
+    fn this(&mut self, st: &mut St) -> Res {
+        if let Some(r) = self.recv.take() {
+            // note: `take` means a second This would see no receiver; no built-in has two
+            return Ok(r);
+        }
+        if self.next >= self.args.len() {
+            return Err(other());
+        }
+        let v = eval(&self.args[self.next], st)?;
+        self.next += 1;
+        Ok(v)
+    }
+    fn arg(&mut self, st: &mut St) -> Res {
+        if self.next >= self.args.len() {
+            return Err(other());
+        }
+        let v = eval(&self.args[self.next], st)?;
+        self.next += 1;
+        Ok(v)
+    }
+}
+
+/// patterns restricted to literal text with optional ^ / $ anchors; anything else is not modelled
+fn simple_match(s: &str, pat: &str) -> Result<bool, Stop> {
+    let (a, rest) = match pat.strip_prefix('^') {
+        Some(r) => (true, r),
+        None => (false, pat),
+    };
+    let (z, core) = match rest.strip_suffix('$') {
+        Some(r) => (true, r),
+        None => (false, rest),
+    };
+    if !core.chars().all(|c| c.is_ascii_alphanumeric() || c == ' ' || c == '_') {
+        return Err(unsup("regex beyond literal text and anchors"));
+    }
+    Ok(match (a, z) {
+        (true, true) => s == core,
+        (true, false) => s.starts_with(core),
+        (false, true) => s.ends_with(core),
+        (false, false) => s.contains(core),
+    })
+}
+
+pub fn conv_int(v: &V) -> Res {
+    match v {
+        V::Int(i) => Ok(V::Int(*i)),
+        V::UInt(u) => i64::try_from(*u).map(V::Int).map_err(|_| Stop::Err(ErrClass::Overflow)),
+        V::Float(f) => {
+            let x = f.0;
+            if x.is_nan() || x.is_infinite() {
+                return Err(Stop::Err(ErrClass::Overflow));
+            }
+            let t = x.trunc();
+            // −2^63 itself: cel-go rejects it, arithmetic allows it — not asserted
+            if t == -9223372036854775808.0 {
+                return Err(unsup("int(-2^63 as double)"));
+            }
+            if t > -9223372036854775808.0 && t < 9223372036854775808.0 {
+                Ok(V::Int(t as i64))
+            } else {
+                Err(Stop::Err(ErrClass::Overflow))
+            }
+        }
+        V::Str(s) => {
+            // decimal digits with an optional leading '-' are certain; everything else is not asserted here (C13 probes it)
+            let body = s.strip_prefix('-').unwrap_or(s);
+            if !body.is_empty() && body.chars().all(|c| c.is_ascii_digit()) {
+                s.parse::<i64>().map(V::Int).map_err(|_| other())
+            } else if body.is_empty() || body.chars().any(|c| !(c.is_ascii_digit() || c == '+' || c == '_')) {
+                Err(other())
+            } else {
+                Err(unsup("int() of an unusual numeric string"))
+            }
+        }
+        V::Func(..) => Err(unsup("function value operand")),
+        V::Ts(..) | V::Dur(..) => Err(unsup("int() of a time value")),
+        _ => Err(other()),
+    }
+}
+
+pub fn conv_uint(v: &V) -> Res {
+    match v {
+        V::UInt(u) => Ok(V::UInt(*u)),
+        V::Int(i) => u64::try_from(*i).map(V::UInt).map_err(|_| Stop::Err(ErrClass::Overflow)),
+        V::Float(f) => {
+            let x = f.0;
+            if x.is_nan() || x.is_infinite() {
+                return Err(Stop::Err(ErrClass::Overflow));
+            }
+            if x < 0.0 && x > -1.0 {
+                return Err(unsup("uint(x) for -1 < x < 0"));
+            }
+            let t = x.trunc();
+            if t >= 0.0 && t < 18446744073709551616.0 {
+                Ok(V::UInt(t as u64))
+            } else {
+                Err(Stop::Err(ErrClass::Overflow))
+            }
+        }
+        V::Str(s) => {
+            if !s.is_empty() && s.chars().all(|c| c.is_ascii_digit()) {
+                s.parse::<u64>().map(V::UInt).map_err(|_| other())
+            } else if s.is_empty() || s.chars().any(|c| !(c.is_ascii_digit() || c == '+' || c == '_')) {
+                Err(other())
+            } else {
+                Err(unsup("uint() of an unusual numeric string"))
+            }
+        }
+        V::Func(..) => Err(unsup("function value operand")),
+        V::Ts(..) | V::Dur(..) => Err(unsup("uint() of a time value")),
+        _ => Err(other()),
+    }
+}
+
+pub fn conv_double(v: &V) -> Res {
+    match v {
+        V::Float(f) => Ok(V::Float(*f)),
+        V::Int(i) => Ok(V::f(nearest_f64(*i as i128))),
+        V::UInt(u) => Ok(V::f(nearest_f64(*u as i128))),
+        V::Str(_) => Err(unsup("double() of a string (C13 probes it)")),
+        V::Func(..) => Err(unsup("function value operand")),
+        _ => Err(other()),
+    }
+}
+
+pub fn conv_string(v: &V) -> Res {
+    match v {
+        V::Str(s) => Ok(V::Str(s.clone())),
+        V::Int(i) => Ok(V::Str(i.to_string())),
+        V::UInt(u) => Ok(V::Str(u.to_string())),
+        V::Float(_) => Err(unsup("string() of a double (C13 checks the round trip)")),
+        V::Bytes(b) => match std::str::from_utf8(b) {
+            Ok(s) => Ok(V::Str(s.to_string())),
+            Err(_) => Err(unsup("string() of invalid UTF-8")),
+        },
+        V::Dur(..) | V::Ts(..) => Err(unsup("string() of a time value (C15/C16)")),
+        V::Func(..) => Err(unsup("function value operand")),
+        _ => Err(other()),
+    }
+}
+
+fn minmax(items: &[V], want: Ordering) -> Res {
+    if items.is_empty() {
+        return Err(unsup("min/max of nothing"));
+    }
+    let mut best = items[0].clone();
+    for x in &items[1..] {
+        let o = cel_cmp(x, &best)?;
+        if o == want {
+            best = x.clone();
+        } else if o == Ordering::Equal && !super::same(x, &best) {
+            // equal by value but different representation (1 vs 1u vs 1.0): either is acceptable
+            return Err(unsup("min/max tie between different representations"));
+        }
+    }
+    Ok(best)
+}
+
+fn eval_call(name: &str, recv: Option<&E>, args: &[E], st: &mut St) -> Res {
+    if !st.has_function(name) {
+        // the implementation looks the function up before it evaluates receiver or arguments
+        return Err(Stop::Err(ErrClass::Undeclared(name.to_string())));
+    }
+    let recv_v = match recv {
+        Some(r) => Some(eval(r, st)?),
+        None => None,
+    };
+    let mut a = Args { recv: recv_v, args, next: 0 };
+    if st.host && HOST_FUNCS.contains(&name) {
+        return eval_host(name, &mut a, st);
+    }
+    match name {
+        "size" => {
+            let v = a.this(st)?;
+            match v {
+                V::List(xs) => Ok(V::Int(xs.len() as i64)),
+                V::Map(es) => Ok(V::Int(es.len() as i64)),
+                V::Str(s) => {
+                    if utf8_ascii(&s) {
+                        Ok(V::Int(s.len() as i64))
+                    } else {
+                        Err(unsup("size of a non-ASCII string"))
+                    }
+                }
+                V::Bytes(b) => Ok(V::Int(b.len() as i64)),
+                V::Func(..) => Err(unsup("function value operand")),
+                _ => Err(other()),
+            }
+        }
+        "contains" => {
+            let this = a.this(st)?;
+            let x = a.arg(st)?;
+            match (&this, &x) {
+                (V::List(xs), _) => {
+                    let mut f = false;
+                    for e in xs {
+                        if cel_eq(e, &x)? {
+                            f = true;
+                        }
+                    }
+                    Ok(V::Bool(f))
+                }
+                (V::Map(es), k) if k.is_key_kind() => {
+                    if has_twin_keys(es) {
+                        return Err(unsup("map with int/uint twin keys"));
+                    }
+                    Ok(V::Bool(map_get(es, k).is_some()))
+                }
+                (V::Map(_), _) => Err(other()),
+                (V::Str(s), V::Str(t)) => Ok(V::Bool(s.contains(t.as_str()))),
+                (V::Bytes(s), V::Bytes(t)) => Ok(V::Bool(t.is_empty() || s.windows(t.len()).any(|w| w == &t[..]))),
+                (V::Func(..), _) | (_, V::Func(..)) => Err(unsup("function value operand")),
+                _ => Err(unsup("contains() on unrelated kinds")),
+            }
+        }
+        "startsWith" | "endsWith" | "matches" => {
+            let this = a.this(st)?;
+            let this = match this {
+                V::Str(s) => s,
+                V::Func(..) => return Err(unsup("function value operand")),
+                _ => return Err(other()),
+            };
+            let x = a.arg(st)?;
+            let x = match x {
+                V::Str(s) => s,
+                V::Func(..) => return Err(unsup("function value operand")),
+                _ => return Err(other()),
+            };
+            Ok(V::Bool(match name {
+                "startsWith" => this.starts_with(x.as_str()),
+                "endsWith" => this.ends_with(x.as_str()),
+                _ => simple_match(&this, &x)?,
+            }))
+        }
+        "int" => {
+            let v = a.this(st)?;
+            conv_int(&v)
+        }
+        "uint" => {
+            let v = a.this(st)?;
+            conv_uint(&v)
+        }
+        "double" => {
+            let v = a.this(st)?;
+            conv_double(&v)
+        }
+        "string" => {
+            let v = a.this(st)?;
+            conv_string(&v)
+        }
+        "bytes" => {
+            if a.recv.is_some() {
+                return Err(unsup("bytes() called as a method"));
+            }
+            match a.arg(st)? {
+                V::Str(s) => Ok(V::Bytes(s.into_bytes())),
+                V::Func(..) => Err(unsup("function value operand")),
+                _ => Err(other()),
+            }
+        }
+        "max" | "min" => {
+            if a.recv.is_some() {
+                return Err(unsup("min/max called as a method"));
+            }
+            let mut items = vec![];
+            for x in args {
+                items.push(eval(x, st)?);
+            }
+            let items = if items.len() == 1 {
+                match &items[0] {
+                    V::List(xs) => xs.clone(),
+                    _ => return Ok(items[0].clone()),
+                }
+            } else {
+                items
+            };
+            minmax(&items, if name == "max" { Ordering::Greater } else { Ordering::Less })
+        }
+        _ => Err(unsup("time built-ins are checked by C15/C16")),
+    }
+}
+
+fn eval_host(name: &str, a: &mut Args, st: &mut St) -> Res {
+    let n_params = |name: &str| -> usize {
+        match name {
+            "h0" | "fail" | "noop" => 0,
+            "h1" | "fail1" | "q" | "m0" => 1,
+            "h2" | "t" | "tf" | "q2" | "m1" => 2,
+            "h3" | "m2" => 3,
+            "h4" | "m3" => 4,
+            _ => 0,
+        }
+    };
+    match name {
+        "va" => {
+            let mut items = vec![];
+            for x in a.args {
+                items.push(eval(x, st)?);
+            }
+            st.calls += 1;
+            st.log.push("va".into());
+            Ok(V::List(items))
+        }
+        "idf" => Err(unsup("identifier extractor (C20)")),
+        "thisopt" => Err(unsup("optional receiver (C20)")),
+        "m0" | "m1" | "m2" | "m3" => {
+            let this = a.this(st)?;
+            for _ in 1..n_params(name) {
+                a.arg(st)?;
+            }
+            st.calls += 1;
+            st.log.push(name.to_string());
+            Ok(this)
+        }
+        _ => {
+            let n = n_params(name);
+            let mut vals = vec![];
+            for _ in 0..n {
+                vals.push(a.arg(st)?);
+            }
+            st.calls += 1;
+            match name {
+                "t" => {
+                    st.log.push(format!("t:{}", show_id(&vals[0])));
+                    Ok(vals[1].clone())
+                }
+                "tf" => {
+                    // logs, then fails
+                    st.log.push(format!("tf:{}", show_id(&vals[0])));
+                    Err(other())
+                }
+                "fail" | "fail1" => {
+                    st.log.push(name.to_string());
+                    Err(other())
+                }
+                "noop" => {
+                    st.log.push("noop".into());
+                    Ok(V::Null)
+                }
+                "h0" => {
+                    st.log.push("h0".into());
+                    Ok(V::Int(0))
+                }
+                "h1" | "h2" | "h3" | "h4" => {
+                    st.log.push(name.to_string());
+                    Ok(vals[0].clone())
+                }
+                "q" | "q2" => {
+                    let key = if name == "q" { vals[0].clone() } else { V::List(vals.clone()) };
+                    st.log.push(format!("{name}:{}", show_id(&key)));
+                    match st.table.iter().find(|(k, _)| super::same(k, &key)) {
+                        Some((_, Some(v))) => Ok(v.clone()),
+                        Some((_, None)) => Err(other()),
+                        None => Ok(V::Bool(false)),
+                    }
+                }
+                _ => Err(unsup("unknown host function")),
+            }
+        }
+    }
+}
+
+pub fn show_key(v: &V) -> String {
+    show_id(v)
+}
